@@ -99,7 +99,13 @@ Proof.
     + rewrite map_app. f_equal. apply map_fst_flat. intros x Hx. exact (proj1 (H x Hx n (all_good_in _ _ _ Hg Hx))).
     + rewrite !map_app. f_equal. apply map_snd_flat. intros x Hx. exact (proj2 (H x Hx n (all_good_in _ _ _ Hg Hx))).
   - destruct Hg.
-  - destruct Hg.
+  - apply (proj1 (good_keyed _ _ _ _)) in Hg. destruct Hg as [_ [_ Hg]]. cbn [node_sexps ids cs].
+    rewrite Forall_forall in H.
+    assert (forall x, In x rows -> good n (snd x)) as Hgx.
+    { intros x Hx. eapply all_good_in; [exact Hg|]. apply in_map. exact Hx. }
+    split.
+    + rewrite map_app. f_equal. apply map_fst_flat. intros x Hx. exact (proj1 (H x Hx n (Hgx x Hx))).
+    + rewrite !map_app. f_equal. apply map_snd_flat. intros x Hx. exact (proj2 (H x Hx n (Hgx x Hx))).
 Qed.
 
 (** the serialised nodes of a good state, identity flags removed, are the image of [cs] *)
